@@ -1,18 +1,20 @@
-(** C10 (start-up after a crash): states reachable by operations, clean restarts AND crashes,
-    the guard under which start-up can be shown total, and the two witnesses showing that
-    WITHOUT that guard the model's NewKernel does not come up again.
+(** C10 (start-up after a crash): states reachable by operations, clean restarts AND crashes.
 
-    Both witnesses store a signature collection that contains an entry with an EMPTY signature
-    list.  The ordinary vote path filters such entries ([sigs_to_add] drops an entry whose kept
-    list is empty); the two other paths that write vote collections do not:
-      A. a replayed header whose commit proof carries, beside the quorum for the header, an entry
-         [(hash, [])]: [handle_replay] merges the empty list (AllValidSignatures = true), the
-         empty proof enters the voting view's precommit map and is written with the round.
-      B. a prevote / precommit message for a later round of the voting height carrying one valid
-         signature and an entry [(hash, [])]: [handle_future_votes] creates the empty proof,
-         merges nothing into it, and writes the whole map.
-    On the next start [to_full_map] (SparseSignatureCollection.toFullProofMap) panics with
-    "BUG: saw len(sparseSigs) == 0" as soon as that round is loaded. *)
+    History of this file.  The first version refuted "start-up never fails" with two witnesses
+    that made the mirror PERSIST a signature-collection entry with an empty signature list
+    (A: a replayed commit proof with an entry [(hash, [])]; B: a vote message for a later round of
+    the voting height with such an entry); the next NewKernel then panicked in
+    SparseSignatureCollection.toFullProofMap ("BUG: saw len(sparseSigs) == 0").  Both were
+    confirmed on the Go code and repaired there: the future-vote path and the replay path now
+    skip entries without signatures ([signed_entries] in Model/Mirror.v).  The former witnesses are
+    kept below as regression examples: the mirror now comes up on them.
+
+    What remains is a MODEL-ONLY way to make start-up fail: the model's [valset] keeps keys and
+    powers in two lists of independent length, so a next validator set with non-zero power and NO
+    key passes [op_wf]; once committed, "loadInitialVotingView: BUG: no validators available".
+    In Go a ValidatorSet is one list of (key, power) pairs, so non-zero power implies a key; the
+    theorems of Proofs/MirrorResume.v therefore carry the guard "the next set of an accepted /
+    replayed header has a key" ([keys_guard_needed_in_model] shows it is needed in the model). *)
 From Coq Require Import List NArith Arith Bool Lia String.
 From GV Require Import Base.Ints Gen.Math Gen.Kernel Model.Mirror
   Proofs.Thresholds Proofs.MirrorAuth Proofs.MirrorNoop Proofs.MirrorChain Proofs.MirrorCert
@@ -40,32 +42,16 @@ Proof.
   apply (rx_step ih ivs s (XOp o) s' res IH); [split; assumption|exact Hs].
 Qed.
 
-(** * The guard: no signature collection offered to the mirror has an empty signature list *)
+(** * Signature collections without empty entries (what [signed_entries] produces) *)
 Definition proofs_nonempty (l : list (bytes * list ssig)) : Prop :=
   forall t sigs, In (t, sigs) l -> sigs <> [].
 
-Definition proofs_nonemptyb (l : list (bytes * list ssig)) : bool :=
-  forallb (fun e => match snd e with [] => false | _ => true end) l.
-
-Lemma proofs_nonemptyb_ok l : proofs_nonemptyb l = true -> proofs_nonempty l.
+Lemma signed_entries_nonempty l : proofs_nonempty (signed_entries l).
 Proof.
-  unfold proofs_nonemptyb, proofs_nonempty. rewrite forallb_forall.
-  intros H t sigs Hin E. specialize (H _ Hin). cbn in H. rewrite E in H. discriminate.
+  intros t sigs Hin E. apply filter_In in Hin as [_ H]. cbn [snd] in H. rewrite E in H. discriminate.
 Qed.
 
-(** the vote message, the replayed commit proof, and the previous commit proof of a proposed
-    header (it is handed to the vote handler when the header is for the next height) *)
-Definition op_nonempty (o : op) : Prop :=
-  match o with
-  | OpPH p => proofs_nonempty (cp_proofs (hd_pcp (ph_hdr p)))
-  | OpPrevote m | OpPrecommit m => proofs_nonempty (vm_proofs m)
-  | OpReplay _ cp => proofs_nonempty (cp_proofs cp)
-  end.
-
-Definition xop_nonempty (x : xop) : Prop :=
-  match x with XOp o | XCrash _ o => op_nonempty o | XRestart => True end.
-
-(** * Witnesses *)
+(** * The former witnesses *)
 Definition run_x (s : kstate) (xs : list xop) : res (kstate * N) :=
   fold_left (fun r x => match r with Ok (s, _) => xstep s x | p => p end) xs (Ok (s, 0)).
 
@@ -80,91 +66,40 @@ Definition wA_op : op := OpReplay (ex_hdr ex_vs ex_vs) wA_cp.
 Definition wB_msg : vmsg := mk_vmsg 1 2 [1] [([], [sg7 KPrevote 1 2 []]); ([8], [])].
 Definition wB_nil : vmsg := ex_precommit 1 0 [1] [].
 
-Definition site_empty_sigs : string := "toFullProofMap: BUG: saw len(sparseSigs) == 0".
-
-(** A: the replay is accepted and commits height 1 ... *)
+(** both are still handled as before (accepted / FutureVerified, Accepted) ... *)
 Example wA_uninterrupted :
   exists s', step (init_state 1 ex_vs) wA_op = Ok (s', 0) /\ st_nhr s' = (2, 0, 1, 0).
 Proof. eexists. vm_compute. split; reflexivity. Qed.
 
-(** ... but a restart afterwards, and a crash after any k >= 2 of its 4 store writes, fails *)
-Lemma wA_restart_fails :
-  run_x (init_state 1 ex_vs) [XOp wA_op; XRestart] = Panic site_empty_sigs.
-Proof. vm_compute. reflexivity. Qed.
-
-Lemma wA_crash_fails :
-  xstep (init_state 1 ex_vs) (XCrash 2 wA_op) = Panic site_empty_sigs /\
-  xstep (init_state 1 ex_vs) (XCrash 3 wA_op) = Panic site_empty_sigs /\
-  xstep (init_state 1 ex_vs) (XCrash 4 wA_op) = Panic site_empty_sigs.
-Proof. vm_compute. repeat split; reflexivity. Qed.
-
-(** B: both messages are handled normally (FutureVerified, Accepted) ... *)
 Example wB_uninterrupted :
   exists s1 s2, step (init_state 1 ex_vs) (OpPrevote wB_msg) = Ok (s1, HandleVoteProofsFutureVerified) /\
                 step s1 (OpPrecommit wB_nil) = Ok (s2, HandleVoteProofsAccepted) /\
                 st_nhr s2 = (1, 1, 0, 0).
 Proof. eexists. eexists. vm_compute. repeat split; reflexivity. Qed.
 
-(** ... and the mirror cannot be started again: round 2 is now the next-round view *)
-Lemma wB_restart_fails :
-  run_x (init_state 1 ex_vs) [XOp (OpPrevote wB_msg); XOp (OpPrecommit wB_nil); XRestart] = Panic site_empty_sigs.
-Proof. vm_compute. reflexivity. Qed.
+(** ... and the mirror now comes up again: after a clean restart and after a crash at every point *)
+Example wA_now_restarts :
+  is_ok (run_x (init_state 1 ex_vs) [XOp wA_op; XRestart]) = true /\
+  forallb (fun k => is_ok (xstep (init_state 1 ex_vs) (XCrash k wA_op))) [0; 1; 2; 3; 4; 5]%nat = true.
+Proof. vm_compute. split; reflexivity. Qed.
 
-Lemma wB_crash_fails :
-  run_x (init_state 1 ex_vs) [XOp (OpPrevote wB_msg); XCrash 2 (OpPrecommit wB_nil)] = Panic site_empty_sigs.
-Proof. vm_compute. reflexivity. Qed.
+Example wB_now_restarts :
+  is_ok (run_x (init_state 1 ex_vs) [XOp (OpPrevote wB_msg); XOp (OpPrecommit wB_nil); XRestart]) = true /\
+  forallb (fun k => is_ok (run_x (init_state 1 ex_vs) [XOp (OpPrevote wB_msg); XCrash k (OpPrecommit wB_nil)]))
+          [0; 1; 2; 3]%nat = true.
+Proof. vm_compute. split; reflexivity. Qed.
 
-(** a crash of the second message after its first write (the precommit is stored, the position
-    is not) still comes up: the stored position is round 0 and round 2 is not loaded *)
-Example wB_crash_one_write_ok :
-  is_ok (run_x (init_state 1 ex_vs) [XOp (OpPrevote wB_msg); XCrash 1 (OpPrecommit wB_nil)]) = true.
-Proof. vm_compute. reflexivity. Qed.
+(** * Model only: a committed next validator set with power but without keys *)
+Definition ex_nokeys : valset := mk_valset [] [1] [5] [6] true.
+Definition site_no_validators : string := "loadInitialVotingView: BUG: no validators available".
 
-(** * The refutation of "start-up never fails" *)
-Theorem restart_can_fail_refuted :
-  exists ih ivs s o k site,
-    1 <= ih /\ vs_ok ivs = true /\ 0 < sum_pows (vs_pows ivs) /\
-    reachable_x ih ivs s /\ op_bounded o /\ op_wf o /\
-    (exists s' r, step s o = Ok (s', r)) /\
-    xstep s (XCrash k o) = Panic site.
-Proof.
-  exists 1, ex_vs, (state_after [OpPrevote wB_msg]), (OpPrecommit wB_nil), 2%nat, site_empty_sigs.
-  split; [vm_compute; discriminate|]. split; [reflexivity|]. split; [vm_compute; reflexivity|].
-  split; [apply reachable_a_x, state_after_reachable_a; vm_compute; reflexivity|].
-  split; [exact I|]. split; [exact I|].
-  split; [eexists; eexists; vm_compute; reflexivity|].
-  vm_compute. reflexivity.
-Qed.
-
-(** the same for a clean restart (no crash at all), by a peer message (B) and by a replayed
-    header (A) *)
-Theorem clean_restart_can_fail_refuted :
+Theorem keys_guard_needed_in_model :
   exists ih ivs s site,
     1 <= ih /\ vs_ok ivs = true /\ 0 < sum_pows (vs_pows ivs) /\
     reachable_x ih ivs s /\ xstep s XRestart = Panic site.
 Proof.
-  exists 1, ex_vs, (state_after [OpPrevote wB_msg; OpPrecommit wB_nil]), site_empty_sigs.
+  exists 1, ex_vs, (state_after [OpPH (ex_ph ex_vs ex_nokeys); OpPrecommit (ex_precommit 1 0 [1] [9])]), site_no_validators.
   split; [vm_compute; discriminate|]. split; [reflexivity|]. split; [vm_compute; reflexivity|].
   split; [apply reachable_a_x, state_after_reachable_a; vm_compute; reflexivity|].
   vm_compute. reflexivity.
-Qed.
-
-Theorem clean_restart_after_replay_can_fail_refuted :
-  exists ih ivs s site,
-    1 <= ih /\ vs_ok ivs = true /\ 0 < sum_pows (vs_pows ivs) /\
-    reachable_x ih ivs s /\ xstep s XRestart = Panic site.
-Proof.
-  exists 1, ex_vs, (state_after [wA_op]), site_empty_sigs.
-  split; [vm_compute; discriminate|]. split; [reflexivity|]. split; [vm_compute; reflexivity|].
-  split; [apply reachable_a_x, state_after_reachable_a; vm_compute; reflexivity|].
-  vm_compute. reflexivity.
-Qed.
-
-(** both witnesses violate the guard (and only it) *)
-Example witnesses_violate_guard :
-  ~ op_nonempty (OpPrevote wB_msg) /\ ~ op_nonempty wA_op.
-Proof.
-  split; intros H.
-  - apply (H [8] []); [right; left; reflexivity|reflexivity].
-  - apply (H [8] []); [right; left; reflexivity|reflexivity].
 Qed.
